@@ -139,6 +139,10 @@ def run_one(case, P, do_int, roundtrip=True):
     if closure == "OAAHOC":
         tke = P["tke"]
         kw["tke"] = tke
+        if case["idx"] % 4 == 2:
+            # the argument left out: the documented default is a turbulent kinetic energy of 1.0 m2/s2
+            tke = 1.0
+            del kw["tke"]
     psi_zm = float(gen.psi_m(zm / L))
     if forcing == "ustar":
         ustar = float(ws * P["ufac"])
@@ -171,6 +175,20 @@ def run_one(case, P, do_int, roundtrip=True):
             wind_arg = {"tuple": (um, vm), "list": [um, vm], "ndarray": np.array([um, vm]),
                         "ndarray_view": np.array([um, 0.0, vm, 0.0])[::2]}[wform]
             z, (u, v, Kx, Ky, Kz) = vertical_profiles(n, zm, wind_arg, **kw)
+    if case["idx"] % 3 == 1:
+        # the same call from a caller that escalates warnings and floating-point flags to errors (python -W error, np.seterr(all="raise")):
+        # it gets the same profiles, not an exception
+        try:
+            with warnings.catch_warnings():
+                warnings.simplefilter("error")
+                with np.errstate(all="raise"):
+                    zs_, ps_ = vertical_profiles(n, zm, (um, vm), **kw)
+            counters["calls_under_escalated_warnings"] = counters.get("calls_under_escalated_warnings", 0) + 1
+            if not (np.array_equal(np.asarray(zs_), np.asarray(z), equal_nan=True) and all(np.array_equal(np.asarray(a_), np.asarray(b_), equal_nan=True) for a_, b_ in zip(ps_, (u, v, Kx, Ky, Kz)))):
+                viol.append(dict(what="profiles_depend_on_the_callers_warning_settings", closure=closure, L=L, zm=zm))
+        except Exception as ex_:  # noqa
+            viol.append(dict(what="call_fails_for_a_caller_that_escalates_numerical_warnings", exc=f"{type(ex_).__name__}: {str(ex_)[:160]}", closure=closure, L=L, zm=zm,
+                             n=n, forcing=forcing, grid=gridp))
     counters["vertical_profiles_calls"] += 1
     if not (float(wind_arg[0]) == um and float(wind_arg[1]) == vm):
         viol.append(dict(what="wind_argument_modified_by_the_call", form=wform, before=(um, vm), after=(float(wind_arg[0]), float(wind_arg[1])),
